@@ -8,6 +8,8 @@
 
 mod c01;
 mod c04;
+mod ccorrupt;
+mod cmaint;
 mod cterm;
 mod wrapstore;
 mod cfault;
@@ -34,6 +36,13 @@ fn main() {
         Some("worker") => supervisor::worker(&args),
         Some("replay") => supervisor::replay(&args[2]),
         Some("exec-plan") => supervisor::exec_plan(&args[2], &args[3]),
+        Some("gen-plan") => {
+            // dbsim gen-plan <Cxx> <tier> <seed> <run>: prints the plan a worker would execute
+            let def = registry::find(&args[2]).expect("unknown check");
+            let plan = (def.generate)(args[4].parse().unwrap(), args[5].parse().unwrap(), common::Tier::parse(&args[3]));
+            println!("{}", serde_json::to_string(&plan).unwrap());
+            0
+        }
         Some("selftest") => supervisor::selftest(&args[2], 40),
         _ => {
             eprintln!("usage: dbsim check|worker|replay|exec-plan|selftest ...");
